@@ -1,5 +1,6 @@
 /-
-Concrete driver runs used in the `example`s of `Props/C17.lean` and `Props/C19.lean`.
+Concrete driver runs used in the `example`s of `Props/C17.lean` and `Props/C19.lean`, and runs that
+close sessions one by one (`closeSession`).
 -/
 import SltVerif.Cli
 namespace Slt
@@ -34,5 +35,110 @@ def exRunSignal : List DLabel :=
    .sql 0 0 (kw "select 1 -- Fa.slt"), .signal,
    .finish 1 .cancelled false, .finish 0 .cancelled false, .start,
    .beginDrop, .drop, .drop, .drop, .done]
+
+/-- sessions closed one by one: `a` (two connections) and `b` are in flight; `a`'s runner shuts down and
+    its two engine processes see end-of-file one after the other, with a request of `b` in between;
+    then `a` ends, `c` starts, closes its only session itself and ends after `b` -/
+def exRunClose : List DLabel :=
+  [.create, .create, .create, .beginRun, .start, .start, .openSession 0, .openSession 0,
+   .openSession 1, .sql 0 1 (kw "select 1 -- Fa.slt"),
+   .closeSession 0 0, .sql 1 2 (kw "select 2 -- Fb.slt"), .closeSession 0 1,
+   .finish 0 .ok false, .start, .openSession 2, .sql 2 3 (kw "select 3 -- Fc.slt"),
+   .closeSession 2 3, .finish 1 .ok false, .finish 2 .ok false,
+   .beginDrop, .drop, .drop, .drop, .done]
+
+-- the run reaches `finished`, every file is reported ok …
+example : (drun exCfg (dinit exCfg) exRunClose).map (·.phase) = some .finished := by decide
+example : (drun exCfg (dinit exCfg) exRunClose).map (·.results) =
+    some [(0, .ok), (1, .ok), (2, .ok)] := by decide
+-- … the `eof`s of `a`'s sessions are interleaved with `b`'s request in the log …
+example : (drun exCfg (dinit exCfg) exRunClose).map (fun s => (s.log.drop 7).take 3) =
+    some [.eof 0, .sql 2 (kw "select 2 -- Fb.slt"), .eof 1] := by decide
+-- … and the monitor accepts the log
+example : (drun exCfg (dinit exCfg) exRunClose).map
+    (fun s => accepts (monCfgOf exCfg (kw "main") s) s.log) = some none := by decide
+-- a session cannot be closed twice, and nothing is sent on a closed session
+example : (drun exCfg (dinit exCfg)
+    [.create, .create, .create, .beginRun, .start, .openSession 0, .closeSession 0 0,
+     .closeSession 0 0]).isNone = true := by decide
+example : (drun exCfg (dinit exCfg)
+    [.create, .create, .create, .beginRun, .start, .openSession 0, .closeSession 0 0,
+     .sql 0 0 (kw "select 1 -- Fa.slt")]).isNone = true := by decide
+
+/-- Ctrl-C while `a` (two connections) and `b` are in flight: the sessions are closed one by one,
+    interleaved, before the files are reported cancelled -/
+def exRunSignalClose : List DLabel :=
+  [.create, .create, .create, .beginRun, .start, .start, .openSession 0, .openSession 1,
+   .openSession 0, .sql 0 0 (kw "select 1 -- Fa.slt"), .signal,
+   .closeSession 0 2, .closeSession 1 1, .finish 1 .cancelled false, .closeSession 0 0,
+   .finish 0 .cancelled false, .start,
+   .beginDrop, .drop, .drop, .drop, .done]
+
+example : (drun exCfg (dinit exCfg) exRunSignalClose).map (fun s => (s.phase, s.results)) =
+    some (.finished, [(1, .cancelled), (0, .cancelled), (2, .skipped)]) := by decide
+example : (drun exCfg (dinit exCfg) exRunSignalClose).map
+    (fun s => accepts (monCfgOf exCfg (kw "main") s) s.log) = some none := by decide
+
+/-! ### an observed run: a file in flight that had not yet looked at the flag ends `skipped`
+
+`-j 6`, five files, fail-fast, `d.slt` a parse error: all five files occupy a slot; `a`, `c`, `e` open a
+session and send a request, `d` fails without a session (the flag is set), the three running files are
+cancelled, and `b` — whose task was spawned before the failure but looks at the flag only now — is
+reported skipped. -/
+
+/-- five files, six jobs, fail-fast -/
+def exCfgFive : DCfg :=
+  { jobs := 6, keep := false, failFast := true,
+    files := [⟨kw "a.slt", kw "a_slt_00000000"⟩, ⟨kw "b.slt", kw "b_slt_00000001"⟩,
+              ⟨kw "c.slt", kw "c_slt_00000002"⟩, ⟨kw "d.slt", kw "d_slt_00000003"⟩,
+              ⟨kw "e.slt", kw "e_slt_00000004"⟩] }
+
+/-- the prefix of the observed run up to the failure of `d` -/
+def exRunFivePrefix : List DLabel :=
+  [.create, .create, .create, .create, .create, .beginRun,
+   .start, .start, .start, .start, .start,
+   .openSession 0, .openSession 2, .openSession 4,
+   .sql 0 0 (kw "select 1 -- Fa.slt"), .sql 2 1 (kw "select 3 -- Fc.slt"),
+   .sql 4 2 (kw "dbname e_slt_00000004 -- Fe.slt"),
+   .finish 3 .err false]
+
+/-- the observed run: after the failure the running files `a`, `c`, `e` are cancelled (the session of
+    `c` is closed by `closeSession`, those of `a` and `e` by `finish`), then `b` is skipped -/
+def exRunLateSkip : List DLabel :=
+  exRunFivePrefix ++
+  [.finish 0 .cancelled false, .closeSession 2 1, .finish 2 .cancelled false,
+   .finish 4 .cancelled false, .finish 1 .skipped false,
+   .beginDrop, .drop, .drop, .drop, .drop, .drop, .done]
+
+-- the run reaches `finished`; the results in the order in which the files ended …
+example : (drun exCfgFive (dinit exCfgFive) exRunLateSkip).map (fun s => (s.phase, s.results)) =
+    some (.finished, [(3, .err), (0, .cancelled), (2, .cancelled), (4, .cancelled), (1, .skipped)]) := by
+  decide
+-- … i.e. in file order: cancelled, skipped, cancelled, err, cancelled — as observed
+example : (drun exCfgFive (dinit exCfgFive) exRunLateSkip).map
+    (fun s => (List.range 5).map (fun i => s.results.lookup i)) =
+    some [some .cancelled, some .skipped, some .cancelled, some .err, some .cancelled] := by decide
+-- the files that have opened a session
+example : (drun exCfgFive (dinit exCfgFive) exRunLateSkip).map (·.begun) = some [4, 2, 0] := by decide
+-- the monitor accepts the log
+example : (drun exCfgFive (dinit exCfgFive) exRunLateSkip).map
+    (fun s => accepts (monCfgOf exCfgFive (kw "main") s) s.log) = some none := by decide
+-- `b` cannot be skipped while a file in flight still has an open session
+-- (it waits for `RUNNING_TESTS.write()`) …
+example : (drun exCfgFive (dinit exCfgFive)
+    (exRunFivePrefix ++ [.finish 0 .cancelled false, .finish 1 .skipped false])).isNone = true := by
+  decide
+-- … nor before the flag is set
+example : (drun exCfgFive (dinit exCfgFive)
+    [.create, .create, .create, .create, .create, .beginRun, .start, .start,
+     .finish 1 .skipped false]).isNone = true := by decide
+-- a file that has opened a session is never skipped: with every session closed, `b` can be skipped,
+-- `a` (which had a session) cannot
+example : (drun exCfgFive (dinit exCfgFive)
+    (exRunFivePrefix ++ [.closeSession 0 0, .closeSession 2 1, .closeSession 4 2,
+      .finish 1 .skipped false])).isSome = true := by decide
+example : (drun exCfgFive (dinit exCfgFive)
+    (exRunFivePrefix ++ [.closeSession 0 0, .closeSession 2 1, .closeSession 4 2,
+      .finish 0 .skipped false])).isNone = true := by decide
 
 end Slt
